@@ -166,6 +166,36 @@ def run(facts, rep, tier):
     # the result object handed to a helper by reference: the helper may assign any field (the must-assigned analysis stops being exact)
     escapes = [n for n in f.nodes() if n.k == 'call' and n.callee_in_root and n.ck != 'op' and any(a is not None and guards.strip_casts(a).k == 'ref' and guards.strip_casts(a).decl == R for a in n.ns('args'))]
     foreign_returns = [n for n in f.nodes() if n.k == 'return' and n.n('sub') is not None and not any(x.k == 'ref' and x.decl == R for x in n.n('sub').walk())]
+
+    def fallback_helper(ret):
+        """`return helper(...)` where helper builds the documented fallback unconditionally: a fresh Info, every pointer field and
+        `error` assigned a literal, the literals being table entries"""
+        calls = [x for x in ret.n('sub').walk() if x.k == 'call' and x.callee_in_root]
+        for c in calls:
+            for g in facts.resolve(c):
+                if not g.file.endswith('LocaleInfo.cpp') or g.cfg is None: continue
+                loc = [v for n in g.nodes() if n.k == 'decl' for v in n.vars if v['ctype'].endswith('LocaleInfo::Info')]
+                if len(loc) != 1: continue
+                R2 = loc[0]['decl']
+                asg = {}
+                for n in g.nodes():
+                    if n.k == 'binop' and n.op == '=' and n.n('lhs') is not None and n.n('lhs').k == 'member' and n.n('lhs').n('base') is not None and guards.strip_casts(n.n('lhs').n('base')).k == 'ref' and guards.strip_casts(n.n('lhs').n('base')).decl == R2:
+                        v = guards.strip_casts(n.n('rhs'))
+                        pos = g.cfg.position(n)
+                        if v is not None and v.k == 'str' and pos is not None and pos[0] in g.cfg.pdom.get(g.cfg.entry, ()): asg[n.n('lhs').name] = v.v
+                app = [n for n in g.nodes() if n.k == 'call' and n.callee_base() in ('emplace_back', 'push_back') and n.n('object') is not None and n.n('object').k == 'member' and n.n('object').name == 'languages']
+                lname = None
+                if len(app) == 1 and app[0].ns('args') and app[0].ns('args')[0] is not None:
+                    x = guards.strip_casts(app[0].ns('args')[0]); lname = x.v if x.k == 'str' else None
+                if set(required) | {'error'} <= set(asg) and table_has(facts, 'languageInfo', lname, asg.get('languageCode')) and table_has(facts, 'countryInfo', asg.get('country'), asg.get('countryCode')):
+                    return g
+        return None
+    fb_helpers = [(r_, fallback_helper(r_)) for r_ in foreign_returns]
+    for r_, g_ in fb_helpers:
+        if g_ is not None:
+            rep.ok('LO.2', f'return at line {r_.line} delivers {g_.name.split("::")[-1]}(): a fresh Info with languageCode, country, countryCode and error set to literals that are table entries (the fallback)', r_.shortloc())
+    n_helper_fallbacks = sum(1 for r_, g_ in fb_helpers if g_ is not None)
+    foreign_returns = [r_ for r_, g_ in fb_helpers if g_ is None]
     exact = not escapes and not foreign_returns
     if not exact:
         rep.inconclusive('LO.2', 'result object', (escapes or foreign_returns)[0].shortloc(), ('the result is filled in by a helper that receives it by reference' if escapes else 'some returns deliver the result of a helper instead of the local result object') + ': definite assignment is not followed through helpers')
@@ -192,7 +222,7 @@ def run(facts, rep, tier):
                               f'`{(par or n).text()[:60]}` reads {fl}, which has no default initialiser and is not assigned on every path to this point: the value is indeterminate (whatever the caller\'s storage held), so the test decides nothing',
                               key=f'LO.2|uninit-read|{fl}', fn=f.name)
     rets = [n for n in f.nodes() if n.k == 'return' and n.n('sub') is not None and any(x.k == 'ref' and x.decl == R for x in n.n('sub').walk())]
-    if exact: rep.floor('return statements', len(rets), 2)
+    if exact: rep.floor('return statements', len(rets) + n_helper_fallbacks, 2)
     nfall = 0
     for r in rets:
         asg = assigned_at(r)
@@ -230,6 +260,7 @@ def run(facts, rep, tier):
             rep.inconclusive('LO.2', f'return at line {r.line}', r.shortloc(), f'{missing} not assigned in get() itself (a helper may assign them)'); continue
         rep.check(not missing, 'LO.2', f'return at line {r.line}: languageCode/country/countryCode assigned (languageCode via the non-empty languages witness: {witness})', r.shortloc(),
                   f'{missing} may be unassigned at this return: for an unknown language with a known country the caller receives an indeterminate pointer and no error', key=f'LO.2|return|{",".join(missing)}', fn=f.name)
+    nfall += n_helper_fallbacks
     if nfall >= 1 or exact: rep.check(nfall >= 1, 'LO.2', 'a fallback return exists', f.shortloc(), 'no fallback path', key='LO.2|nofallback', fn=f.name)
     # LO.3: table provenance of the non-fallback assignments
     loops = [n for n in f.nodes() if n.k == 'rangefor']
@@ -242,6 +273,19 @@ def run(facts, rep, tier):
             fl = res_field(n.n('lhs'))
             want_tbl = 'languageInfo' if fl == 'languageCode' else 'countryInfo'
             want_mem = 'value' if fl == 'country' else 'code'
+            if not ok and v is not None and v.k == 'member' and v.name == want_mem and v.n('base') is not None:
+                # an iterator / pointer obtained by searching the table itself: std::find_if(std::begin(T), std::end(T), ...)
+                b_ = guards.strip_casts(v.n('base'))
+                while b_ is not None and b_.k == 'call' and b_.ck == 'op' and b_.op in ('*', '->') and b_.ns('args'): b_ = guards.strip_casts(b_.ns('args')[0])
+                init_ = guards.single_assignment_init(f, b_.decl) if (b_ is not None and b_.k == 'ref' and b_.dk == 'local') else None
+                tbl_ok = False
+                if init_ is not None:
+                    for c_ in init_.walk():
+                        if c_.k == 'call' and strip_targs(c_.calleeq or '') in ('std::find_if', 'std::find', 'std::lower_bound', 'std::find_if_not') and c_.ns('args') and c_.ns('args')[0] is not None:
+                            refs_ = [x for x in c_.ns('args')[0].walk() if x.k == 'ref' and (x.qname or x.name or '').endswith(want_tbl)]
+                            if refs_: tbl_ok = True
+                if tbl_ok:
+                    rep.ok('LO.3', f'result.{fl} = {v.text()[:30]} is the {want_mem} of the {want_tbl} entry found by a search over that table', n.shortloc()); continue
             if not ok and v is not None and v.k == 'member' and v.name == want_mem:
                 rep.inconclusive('LO.3', f'result.{fl} = {v.text()[:30]}', n.shortloc(), f'`{v.text()[:30]}` is not a member of a range-for variable over a table: its origin is not followed'); continue
             ok = bool(ok) and loopvars[v.n('base').decl].endswith(want_tbl) and v.name == want_mem
